@@ -112,6 +112,18 @@ def nt_c16(tr):
     return bool(parents) and (has(tr, 32) or has(tr, 14, lambda e: e[1] in parents))
 
 
+def nt_c05(tr):
+    # handles of several kinds were created and dropped, and an upgrade was attempted or the actor ended by the closed-mailbox path
+    kinds = {e[3] for e in tr if e[0] == 2}
+    return len(kinds) >= 2 and has(tr, 3) and (has(tr, 4) or has(tr, 14, lambda e: e[2] == 0))
+
+
+def nt_c15(tr):
+    # an actor held (at some point) by a Sender or Caller only-ish: derived strong handles exist, an Addr was dropped, and a context op / tick / upgrade was observed
+    kinds = {e[3] for e in tr if e[0] == 2}
+    return bool(kinds & {2, 3}) and has(tr, 3) and (has(tr, 21) or has(tr, 23) or has(tr, 4))
+
+
 PROPS = {
     "C07": {
         "families": [("restart", 1000, 25000), ("timers", 400, 10000), ("lifecycle", 200, 6000)],
@@ -204,6 +216,22 @@ PROPS = {
         "rule": "cases generated from (family, VERIF_SEED, index): actor trees up to depth 3 built by handlers that spawn children and register them under two message types, children also held from outside, broadcasts from handlers, parent termination by stop, last drop, failure, panic and cancellation at random times; non-trivial = a parent with registered children broadcast to them or its task ended; distinct = distinct case JSON",
         "assumptions": ["completeness of one broadcast (one submission per registered child of the type) is checked by the search acceptor on every implementation trace, not proved: the model fixes the target of the i-th submission but not the number of submissions"],
     },
+    "C05": {
+        "families": [("handles", 1000, 25000), ("mailbox", 200, 6000), ("timers", 200, 6000), ("registry", 300, 8000), ("children", 200, 6000)],
+        "monitors": ["C03"],
+        "theorems": ["C05_strong_counted_weak_not", "C05_drop_gives_back", "C05_upgrade_iff_strong_reference", "C05_last_drop_drains_then_stops"],
+        "nontrivial": nt_c05,
+        "rule": "cases generated from (family, VERIF_SEED, index): clone / downgrade / upgrade / convert between all seven handle kinds, moves between client tasks, drops in any order interleaved with submissions, timers and registry entries and child lists holding references; non-trivial = handles of at least two kinds were created, one was dropped, and an upgrade was attempted or the actor ended; distinct = distinct case JSON",
+        "assumptions": ["broker subscriptions are covered by C09's family, not here"],
+    },
+    "C15": {
+        "families": [("handles", 1000, 25000), ("timers", 300, 8000), ("restart", 200, 6000)],
+        "monitors": ["C03"],
+        "theorems": ["C15_every_strong_kind_holds_the_waiting_closure", "C15_context_ops_succeed_while_held", "C15_timers_fire_while_held", "C15_weak_handles_upgrade_while_held"],
+        "nontrivial": nt_c15,
+        "rule": "cases generated from (family, VERIF_SEED, index): conversion / drop programs that leave any combination of Addr, OwningAddr, Sender, Caller alive, with Context::stop / restart from handlers, timers of all kinds and weak upgrades; non-trivial = a Sender or Caller existed, some handle was dropped, and a context operation, a tick or an upgrade was observed; distinct = distinct case JSON",
+        "assumptions": ["'conversions never change which actor is addressed' is checked on the implementation side: the harness derives the target of a converted handle from the library (context id of the handle) and the search acceptor compares it with the source handle's target"],
+    },
     "C14": {
         "families": [("liveness-query", 900, 25000), ("registry-liveness", 500, 12000), ("faults", 200, 6000)],
         "monitors": ["C14"],
@@ -238,6 +266,20 @@ COMMON_NOTE = ("Trusted: Coq kernel; the hand-written model's fidelity (checked 
                "No axioms. Real-thread races inside external crates and real wake-ups beyond the sampled cases are outside.")
 
 MANIFEST_TEXT = {
+    "C05": {
+        "text": "Theorems (Coq, one-step, every state): C05_strong_counted_weak_not (every strong kind is counted on the waiting closure, weak kinds on nothing), C05_drop_gives_back, C05_upgrade_iff_strong_reference, C05_last_drop_drains_then_stops (the closed-mailbox exit is taken only with no reference left and an empty queue). "
+                "[partial] the accounting invariant over all reachable states (count >= number of strong handles, so that an existing strong handle implies 'alive') is not proved: every upgrade answer, every context-stop answer, every timer give-up and every closed-mailbox exit of the implementation is compared with the model's counts by correspondence, and the search acceptor keeps its own per-actor count of strong handles.",
+        "note": COMMON_NOTE,
+        "technique": "Rocq/Coq proof (one-step theorems over all states) over an executable model with explicit reference counts; correspondence by differential run of model and implementation",
+        "design_ref": "DESIGN.md section 6 C05",
+    },
+    "C15": {
+        "text": "Theorems (Coq, one-step, every state): C15_every_strong_kind_holds_the_waiting_closure, C15_context_ops_succeed_while_held, C15_timers_fire_while_held, C15_weak_handles_upgrade_while_held: stop/restart from the context, ticks and weak upgrades are all decided by the one count every strong kind contributes to. "
+                "[partial] as for C05 the accounting invariant over reachable states is validated by correspondence, not proved; identity preservation of conversions is checked by the search acceptor on implementation traces.",
+        "note": COMMON_NOTE,
+        "technique": "Rocq/Coq proof (one-step theorems over all states) over an executable model with explicit reference counts; correspondence by differential run of model and implementation",
+        "design_ref": "DESIGN.md section 6 C15",
+    },
     "C16": {
         "text": "Theorems (Coq, one-step, for every state): C16_child_is_held_strongly (a child is registered through a strong Sender, which stays counted), C16_released_only_with_parent (for every event: a handle leaves the table only by its holder's drop or by the end of the task of a parent holding it as a child), "
                 "C16_parent_end_releases_children (every way the parent's task ends releases all of them), C16_broadcast_targets (the i-th submission of a send_to_children goes to the i-th child under that type: none twice, none of another type). "
